@@ -151,3 +151,83 @@ Definition ex1_dexp (z : C QcF) : C QcF := (qq 1 1, qq 0 1).
 Definition ex1_kexp := kexp_lanczos QcF dnorm_ex ex_small ex1_deigh ex1_dexp (fun M => M) 1.
 Definition ex1_keig := keig_lanczos QcF dnorm_ex ex_small ex1_deigh 1.
 
+
+(* ---- the instance: Proofs/Sweeps2Example.v (L = 3, d = 2, bonds 1-2-2-1, H = ZIZ + ZXI + XZI) ---- *)
+(* TDVP: numpy.exp answered by the constant unimodular number 3/5 + 4/5 i of Proofs/KrylovExamples15.v, so that every local step
+   multiplies its tensor by that phase (the tensors and amplitudes change, norm and energy do not).  Exact split oracle for the
+   states met along such a run: as in ex3_split at the two boundaries; at the pair (0,1) with 'left' distribution
+   A1 = ex3B (right-isometric) and A0[s] = Am[s] . ex3B^H (exact because the rows of Am stay in the row space of ex3B). *)
+Definition ex3p_split (_ : nat) (Am : site CQ) (_ _ _ _ : list BinNums.Z) (left : bool) : site CQ * site CQ * list BinNums.Z :=
+  if left then (if Nat.eqb (sdr Am) 1 then (triv_right Am, [0; 0]%Z)
+                else ((tabl 2 (fun s => tab 1 2 (fun _ j => sumn 2 (fun t => sumn 2 (fun e =>
+                         kmul CQ (get (sel Am (s * 2 + t)) 0 e) (kconj CQ (get (sel ex3B t) j e)))))), ex3B), [0; 0]%Z))
+  else (triv_left Am, [0; 0]%Z).
+Definition ex1p_kexp := kexp_lanczos QcF dnorm_ex ex_small ex1_deigh dexp_ex (fun M => M) 1.
+
+Lemma forallb_right_iso (R : cring) (l : list (site R)) : forallb right_isob l = true -> Forall right_iso l.
+Proof. rewrite forallb_forall, Forall_forall. intros H A HA. apply right_isob_ok, H, HA. Qed.
+(* a boolean check evaluated on the result of a run transfers to every (the) result of that run; stated so that the
+   kernel never has to convert the run itself (only the vm_compute cast evaluates it) *)
+Lemma opt_check {T} (o : option T) (P : T -> bool) :
+  match o with Some x => P x | None => false end = true -> forall x, o = Some x -> P x = true.
+Proof. intros H x E. rewrite E in H. exact H. Qed.
+
+Lemma ex_tdvp2_lapack_trace_ok A qD nrm tr :
+  tdvp_twosite ex_orth ex3p_split ex1p_kexp ex3H ex3Psi exdt exhdt 2 = Some (A, qD, nrm, tr) ->
+  ltdvp2_okb dnorm_ex ex_small ex1_deigh dexp_ex 1 ex3p_split (o_A ex3H) exdt exhdt 2 (rev tr) = true.
+Proof.
+  intros H.
+  refine (opt_check (tdvp_twosite ex_orth ex3p_split ex1p_kexp ex3H ex3Psi exdt exhdt 2)
+            (fun r => ltdvp2_okb dnorm_ex ex_small ex1_deigh dexp_ex 1 ex3p_split (o_A ex3H) exdt exhdt 2 (rev (snd r))) _ (A, qD, nrm, tr) H).
+  vm_compute. reflexivity.
+Qed.
+
+(* every hypothesis of tdvp2_run_lapack is discharged on the instance (boolean checks evaluated by the kernel), so its
+   conclusion holds for the run of the model with the real Lanczos-based solver *)
+Theorem tdvp2_run_lapack_example A qD nrm tr :
+  tdvp_twosite ex_orth ex3p_split ex1p_kexp ex3H ex3Psi exdt exhdt 2 = Some (A, qD, nrm, tr) ->
+  let L := length (o_A ex3H) in
+  2 <= L /\ nrm = snd (ex_orth ex3Psi) /\ SweepsLocal.dnorm2 2 L A = k1 CQ /\
+  SweepsLocal.denergy 2 L A (o_A ex3H) = SweepsLocal.denergy 2 L (m_A (fst (ex_orth ex3Psi))) (o_A ex3H).
+Proof.
+  intros Hrun. pose proof (ex_tdvp2_lapack_trace_ok A qD nrm tr Hrun) as Htr.
+  assert (G1 : OperationUniform.mpo_shapeb 2 [1; 2; 2; 1] (o_A ex3H) = true) by (vm_compute; reflexivity).
+  assert (G2 : OperationUniform.mps_shapeb 2 [1; 2; 2; 1] (m_A (fst (ex_orth ex3Psi))) = true) by (vm_compute; reflexivity).
+  assert (G3 : Forall right_iso (m_A (fst (ex_orth ex3Psi)))) by (apply forallb_right_iso; vm_compute; reflexivity).
+  assert (G4 : mpo_herm QcF (o_A ex3H) 2) by (apply mpo_hermb_ok; vm_compute; reflexivity).
+  assert (G5 : lttr2_ok ex3p_split dnorm_ex ex_small ex1_deigh dexp_ex 1 (o_A ex3H) exdt exhdt 2 (rev tr)) by (apply ltdvp2_okb_ok; exact Htr).
+  exact (tdvp2_run_lapack QcF ex_orth ex3p_split dnorm_ex ex_small ex1_deigh dexp_ex (fun M => M) 1 ex3H ex3Psi exdt exhdt 2 2
+           [1; 2; 2; 1] [1; 2; 2; 1] A qD nrm tr Hrun G1 G2 G3 G4 ex_small_sound (le_n 1) G5).
+Qed.
+
+(* DMRG: keig_lanczos with numiter = 1 returns the Rayleigh quotient and the normalised start tensor; split oracle ex3_split *)
+Lemma ex_dmrg2_lapack_trace_ok A qD ens tr :
+  dmrg_twosite ex_orth ex_qr ex3_split ex1_keig ex3H ex3Psi 2 = Some (A, qD, ens, tr) ->
+  ldmrg2_okb dnorm_ex ex_small ex1_deigh 1 ex_qr ex3_split (o_A ex3H) 2 (rev tr) = true.
+Proof.
+  intros H.
+  refine (opt_check (dmrg_twosite ex_orth ex_qr ex3_split ex1_keig ex3H ex3Psi 2)
+            (fun r => ldmrg2_okb dnorm_ex ex_small ex1_deigh 1 ex_qr ex3_split (o_A ex3H) 2 (rev (snd r))) _ (A, qD, ens, tr) H).
+  vm_compute. reflexivity.
+Qed.
+
+(* every hypothesis of dmrg2_run_lapack except the semantic one on H (H >= lam) is discharged on the instance *)
+Theorem dmrg2_run_lapack_example lam A qD ens tr :
+  dmrg_twosite ex_orth ex_qr ex3_split ex1_keig ex3H ex3Psi 2 = Some (A, qD, ens, tr) ->
+  SweepsLocal.bounded_below 2 (length (o_A ex3H)) (o_A ex3H) lam ->
+  let L := length (o_A ex3H) in
+  let E0 := SweepsLocal.denergy 2 L (m_A (fst (ex_orth ex3Psi))) (o_A ex3H) in
+  SweepsLocal.dnorm2 2 L A = k1 CQ /\ length ens = 2 /\
+  Forall (fun e => fle QcF lam (cre e) /\ fle QcF (cre e) (cre E0)) ens /\ SweepsRun.noninc ens /\
+  (ens <> [] -> last ens (k0 CQ) = SweepsLocal.denergy 2 L A (o_A ex3H)).
+Proof.
+  intros Hrun Hlam. pose proof (ex_dmrg2_lapack_trace_ok A qD ens tr Hrun) as Htr.
+  assert (G1 : OperationUniform.mpo_shapeb 2 [1; 2; 2; 1] (o_A ex3H) = true) by (vm_compute; reflexivity).
+  assert (G2 : OperationUniform.mps_shapeb 2 [1; 2; 2; 1] (m_A (fst (ex_orth ex3Psi))) = true) by (vm_compute; reflexivity).
+  assert (G3 : Forall right_iso (m_A (fst (ex_orth ex3Psi)))) by (apply forallb_right_iso; vm_compute; reflexivity).
+  assert (G4 : mpo_herm QcF (o_A ex3H) 2) by (apply mpo_hermb_ok; vm_compute; reflexivity).
+  assert (G5 : lrtr2_ok ex_qr ex3_split dnorm_ex ex_small ex1_deigh 1 (o_A ex3H) 2 (rev tr)) by (apply ldmrg2_okb_ok; exact Htr).
+  assert (G6 : 2 <= length (o_A ex3H)) by (apply Nat.leb_le; vm_compute; reflexivity).
+  exact (dmrg2_run_lapack QcF ex_orth ex_qr ex3_split dnorm_ex ex_small ex1_deigh 1 ex3H ex3Psi 2 2
+           [1; 2; 2; 1] [1; 2; 2; 1] lam A qD ens tr Hrun G1 G2 G3 G6 Hlam G4 ex_small_sound (le_n 1) G5).
+Qed.
